@@ -258,7 +258,60 @@ def model_line(st, v):
     return f"c11.{sh} {fr.numerator} {fr.denominator}"
 
 
+def proxy_enum_sweep(ctx):
+    """"Reading the written form returns the value written": every member of every enumeration-valued property of the
+    object model (table of harness/oplab.py), assigned through the property and read back through it"""
+    import enum
+    import random
+
+    from harness import oplab
+    from harness.props.c09 import build_deck
+
+    prs = build_deck()
+    world = oplab.discover(prs)
+    rng = random.Random(7)
+    for p in oplab.prop_table():
+        objs = world.objs.get(p.kind, [])
+        if not objs:
+            continue
+        classes = []
+        for _ in range(80):
+            try:
+                v = p.gen(rng)
+            except Exception:  # noqa
+                continue
+            if isinstance(v, enum.Enum) and type(v) not in classes:
+                classes.append(type(v))
+        for cls in classes:
+            for m in cls:
+                if m.name == "MIXED" or "MIXED" in m.name:
+                    continue      # documented as a return value only
+                obj, path = objs[0]
+                ctx.case(key=("proxy-enum", p.kind, p.name, m.name))
+                writable = bool(getattr(m, "xml_value", "x"))
+                try:
+                    setattr(obj, p.name, m)
+                except (TypeError, ValueError) as e:
+                    if writable and m.name not in ("MIXED",):
+                        ctx.count(f"proxy-enum-conditional:{p.kind}.{p.name}")   # e.g. a property not applicable to this object
+                    continue
+                except Exception as e:  # noqa
+                    ctx.fail(f"enum-readback:{p.kind}.{p.name}:{m.name}", f"{path}.{p.name} = {cls.__name__}.{m.name} raised {type(e).__name__}", {"property": p.name, "member": m.name})
+                    continue
+                try:
+                    got = getattr(obj, p.name)
+                except Exception as e:  # noqa
+                    got = ("raises", type(e).__name__)
+                want = p.norm(m) if p.norm else m
+                # (an int-valued enum member equals a bool or an int with the same value: compare types too)
+                if type(got) is not type(want) or got != want:
+                    ctx.fail(f"enum-readback:{p.kind}.{p.name}:{m.name}", f"{path}.{p.name} = {cls.__name__}.{m.name} reads back {got!r}", {"property": p.name, "member": m.name})
+                else:
+                    ctx.count("proxy-enum-roundtrip")
+
+
 def correspond(ctx):
+    proxy_enum_sweep(ctx)
     prs, S = pairs()
     probe = xsdprobe.Probe(common.REPO, [xt for (_, xt) in prs])
     lines, impl, meta = [], [], []
